@@ -29,7 +29,8 @@ const (
 	sysAddr  = "127.0.8.1"
 	realAddr = "127.0.8.2"
 	negWait  = 15 * time.Millisecond // how long "nothing arrives" is observed
-	posWait  = 4 * time.Second
+	posWait  = 15 * time.Second // something that must arrive: generous, a starved machine must not look like a refusal
+	respWait = 15 * time.Second
 )
 
 // started is a work connection on which the server wrote StartWorkConn: the moment a real frpc
@@ -111,7 +112,7 @@ func (s *sess) sync() bool {
 	select {
 	case <-s.pong:
 		return true
-	case <-time.After(2 * time.Second):
+	case <-time.After(respWait):
 		return false
 	}
 }
@@ -314,7 +315,7 @@ func systemCase(g *gen, dist map[string]int) (string, []map[string]string, error
 			}
 			select {
 			case <-gate.blocked:
-			case <-time.After(3 * time.Second):
+			case <-time.After(respWait):
 				return "", nil, fmt.Errorf("race: the second registration did not reach the gate")
 			}
 			// A registers the name completely
@@ -325,7 +326,7 @@ func systemCase(g *gen, dist map[string]int) (string, []map[string]string, error
 			var ra, rb *msg.NewProxyResp
 			select {
 			case ra = <-a.proxyRes:
-			case <-time.After(3 * time.Second):
+			case <-time.After(respWait):
 				close(gate.release)
 				return "", nil, fmt.Errorf("race: no NewProxyResp for the first registration")
 			}
@@ -333,7 +334,7 @@ func systemCase(g *gen, dist map[string]int) (string, []map[string]string, error
 			close(gate.release)
 			select {
 			case rb = <-b.proxyRes:
-			case <-time.After(3 * time.Second):
+			case <-time.After(respWait):
 				return "", nil, fmt.Errorf("race: no NewProxyResp for the held registration")
 			}
 			za, zb := regClass(ra.Error), regClass(rb.Error)
@@ -367,7 +368,7 @@ func systemCase(g *gen, dist map[string]int) (string, []map[string]string, error
 			var resp *msg.NewProxyResp
 			select {
 			case resp = <-s.proxyRes:
-			case <-time.After(3 * time.Second):
+			case <-time.After(respWait):
 				return "", nil, fmt.Errorf("no NewProxyResp")
 			}
 			z := regClass(resp.Error)
@@ -480,7 +481,7 @@ func systemCase(g *gen, dist map[string]int) (string, []map[string]string, error
 			_ = msg.WriteMsg(vc, &msg.NewVisitorConn{RunID: rid, ProxyName: name, SignKey: sign, Timestamp: ts,
 				UseEncryption: vue, UseCompression: vuc})
 			var resp msg.NewVisitorConnResp
-			_ = vc.SetReadDeadline(time.Now().Add(3 * time.Second))
+			_ = vc.SetReadDeadline(time.Now().Add(respWait))
 			if err := msg.ReadMsgInto(vc, &resp); err != nil {
 				vc.Close()
 				return "", nil, fmt.Errorf("no NewVisitorConnResp: %v", err)
@@ -618,7 +619,7 @@ func systemCase(g *gen, dist map[string]int) (string, []map[string]string, error
 			others := int64(0)
 			for k, st := range sts {
 				var sm msg.NatHoleSid
-				_ = st.conn.SetReadDeadline(time.Now().Add(time.Second))
+				_ = st.conn.SetReadDeadline(time.Now().Add(respWait))
 				e := msg.ReadMsgInto(st.conn, &sm)
 				st.conn.Close()
 				if k == 0 && e == nil && reg != nil && st.s == reg.owner {
@@ -799,7 +800,7 @@ func realTransparency(g *gen, dist map[string]int, add func(string, []map[string
 	}
 	defer owner.Close()
 	for p := 0; p < 4; p++ {
-		if !owner.waitRunning(fmt.Sprintf("own.e2e%d", p), 5*time.Second) {
+		if !owner.waitRunning(fmt.Sprintf("own.e2e%d", p), respWait) {
 			return fmt.Errorf("real owner proxy e2e%d (%s configuration) not running", p, format)
 		}
 	}
@@ -860,7 +861,7 @@ func realTransparency(g *gen, dist map[string]int, add func(string, []map[string
 		}
 		go func() { _, _ = c.Write(payload) }()
 		buf := make([]byte, len(payload))
-		wait := 8 * time.Second
+		wait := respWait
 		if x.wrongKey || x.otherUser {
 			wait = 300 * time.Millisecond
 		}
